@@ -4,6 +4,7 @@ package main
 // Usage: verifchk -prop C09 [-tier quick|thorough] [-repo /repo] [-verif /verif]
 
 import (
+	"encoding/json"
 	"flag"
 	"fmt"
 	"os"
@@ -60,6 +61,14 @@ func main() {
 			}
 		}()
 		pc.run(res)
+		if f := os.Getenv("VERIF_AUDIT_SUMMARY"); f != "" {
+			if b, err := os.ReadFile(f); err == nil {
+				var v interface{}
+				if json.Unmarshal(b, &v) == nil {
+					res.Extra["sensitivity_audit"] = v
+				}
+			}
+		}
 	}()
 	code = res.Finish(*verif)
 	os.Exit(code)
@@ -68,4 +77,5 @@ func main() {
 func init() {
 	register("C08", "other", checkC08)
 	register("C09", "other", checkC09)
+	register("C07", "other", checkC07)
 }
